@@ -98,6 +98,7 @@ std::string hx(double d) { return d != d ? std::string("nan") : doubleToHex(d); 
 std::string hxs(const std::vector<double>& v) { std::string s; for (double d : v) { if (!s.empty()) s += " "; s += hx(d); } return s.empty() ? "-" : s; }
 
 struct State {
+  std::map<std::string, std::shared_ptr<AbstractHmmTransitionMatrix>> tm;   // built-in transition models
   size_t n = 0;
   std::vector<double> P, F, E;
   std::map<std::string, std::shared_ptr<HmmLikelihood>> obj;
@@ -124,6 +125,33 @@ std::string run(State& s, const Toks& t) {
     else if (t[2] == "log") reg(s, t[1], std::make_shared<LogsumHmmLikelihood>(a, tr, em, ""));
     else return "bad-op";
     return hx(s.obj[t[1]]->getLogLikelihood());
+  }
+  // ---- built-in transition matrices
+  if (o == "tm") {
+    auto a = std::make_shared<TAlphabet>(toU(t[3]));
+    if (t[2] == "auto") s.tm[t[1]] = std::make_shared<AutoCorrelationTransitionMatrix>(a, "");
+    else if (t[2] == "full") s.tm[t[1]] = std::make_shared<FullHmmTransitionMatrix>(a, "");
+    else return "bad-op";
+    return "ok";
+  }
+  if (o.compare(0, 2, "tm") == 0) {
+    auto q = t.size() > 1 ? s.tm.find(t[1]) : s.tm.end();
+    if (q == s.tm.end()) return "no-object";
+    AbstractHmmTransitionMatrix& M = *q->second;
+    Parametrizable& MP = dynamic_cast<Parametrizable&>(M);
+    size_t n = M.getNumberOfStates();
+    if (o == "tmset") { MP.setParameterValue(t[2], hexToDouble(t[3])); return "ok"; }
+    if (o == "tmsetP") {
+      RowMatrix<double> m(n, n);
+      for (size_t i = 0; i < n; ++i) for (size_t j = 0; j < n; ++j) m(i, j) = hexToDouble(t[2 + i * n + j]);
+      dynamic_cast<FullHmmTransitionMatrix&>(M).setTransitionProbabilities(m); return "ok";
+    }
+    if (o == "tmpij") { const Matrix<double>& m = M.getPij(); std::vector<double> f; for (size_t i = 0; i < n; ++i) for (size_t j = 0; j < n; ++j) f.push_back(m(i, j)); return hxs(f); }
+    if (o == "tmPij") return hx(M.Pij(toU(t[2]), toU(t[3])));
+    if (o == "tmeq") return hxs(M.getEquilibriumFrequencies());
+    if (o == "tmnames") { std::string r; for (auto& nm : MP.getParameters().getParameterNames()) r += (r.empty() ? "" : " ") + strToHex(nm); return r.empty() ? "-" : r; }
+    if (o == "tmclone") { s.tm[t[2]] = std::shared_ptr<AbstractHmmTransitionMatrix>(dynamic_cast<AbstractHmmTransitionMatrix*>(M.clone())); return "ok"; }
+    return "bad-op";
   }
   if (o == "clone") {
     // clone <src> <dst>: deep copy through the virtual clone() of the likelihood class
